@@ -233,15 +233,17 @@ theorem isUserAuthenticated_refines (c : Handler.Cfg) (e : Handler.Env) (v : Ses
     (hT : sess.GetAccessToken = Session.getToken e.decompress v .access)
     (hG : t.refreshGracePeriod = c.grace * 1000000000)
     (hP : (t.parseJWT sess.GetAccessToken).2.isNone = (e.tok sess.GetAccessToken).parses)
-    (hV : (t.VerifyJWTSignatureAndClaims (t.parseJWT sess.GetAccessToken).1 sess.GetAccessToken).isNone
+    (hV : (Code.TraefikOidc_VerifyJWTSignatureAndClaims (e.now * 1000000000) t (t.parseJWT sess.GetAccessToken).1 sess.GetAccessToken).isNone
             = decide ((e.tok sess.GetAccessToken).verdict e.now = .accept))
     (hE : (e.tok sess.GetAccessToken).verdict e.now = .accept →
             ∃ x, Go.asF64 (Go.mapGet (t.parseJWT sess.GetAccessToken).1.Claims "exp".toList) = (x, true) ∧
                  x.trunc = (e.tok sess.GetAccessToken).exp) :
     Code.TraefikOidc_isUserAuthenticated (e.now * 1000000000) t sess = Handler.classify c e v := by
-  obtain ⟨ex, ad, ar, gp, ecf, pj, vj⟩ := t
-  simp only at hG hP hV hE
   unfold Code.TraefikOidc_isUserAuthenticated Handler.classify
+  generalize hvj : Code.TraefikOidc_VerifyJWTSignatureAndClaims (e.now * 1000000000) t = vj at hV ⊢
+  clear hvj
+  obtain ⟨ex, ad, ar, gp, ecf, pj, iu, ci, gj, tp, vs⟩ := t
+  simp only at hG hP hV hE
   rw [← hA, ← hR, ← hT]
   have ee : (['e','x','p'] : Str) = "exp".toList := rfl
   rw [ee]
